@@ -420,11 +420,20 @@ def repeat(x, repeats, /, *, axis=0):
     if not isinstance(repeats, int):
         raise ValueError("repeat only supports integral values for `repeats`")
 
+    if repeats < 0:
+        raise ValueError("repeats may not contain negative values.")
+
     if axis is None:
         x = flatten(x)
         axis = 0
+    axis = validate_axis(axis, x.ndim)
 
     shape = x.shape[:axis] + (x.shape[axis] * repeats,) + x.shape[axis + 1 :]
+    if repeats == 0:
+        # nothing is repeated: the result is empty along the axis
+        from cubed.array_api.creation_functions import empty
+
+        return empty(shape, dtype=x.dtype, chunks=x.chunksize, spec=x.spec)
     chunks = normalize_chunks(x.chunksize, shape=shape, dtype=x.dtype)
 
     # This implementation calls nxp.repeat in every output block, which is 'repeats' times
